@@ -4,6 +4,7 @@ import MindsVerif.Lemmas.SetOps
 import MindsVerif.Lemmas.SelectTokens
 import MindsVerif.Lemmas.LitSeq
 import MindsVerif.Props.C03
+import MindsVerif.Props.C18
 import MindsVerif.Model.Lex
 import MindsVerif.Gen.Lex_sqlite
 import MindsVerif.Gen.Lex_mysql
@@ -12,42 +13,46 @@ import MindsVerif.Gen.Lex_mindsdb
 # C01 — printing a parsed statement and re-parsing it yields the same tree
 
 `C01_full parse print copy` is the property for one dialect, stated over the real pair
-`parse = parse_sql(·, dialect)`, `print = ASTNode.to_string` (trees compared by `to_tree` and `str`).
-It is **false on the pinned tree** (`C01_witness_*` below and `kf_proposed_C01.json`), and it ranges
-over 76 node classes; what is proved is layered:
+`parse = parse_sql(·, dialect)`, `print = ASTNode.to_string`, `copy = ASTNode.copy` (trees compared by `to_tree` and `str`).
+No theorem of this file proves or refutes `C01_full` for the real pair: it ranges over every node class and every statement
+kind, and the round-trip oracle of `tools/props/c01.py` still meets open known findings (`known_findings.json`, each with
+`why_open`).  What is proved is layered; every layer theorem is for ALL inputs of its layer:
 
-* **L2 expressions** `C01_partial_expr_<d>` (= `C03.roundtrip_<d>`): for EVERY token list the
-  operator-precedence machine of the dialect accepts (any operators of the exported precedence table,
-  any user parentheses), printing the tree with its stored `parentheses` flags and parsing again gives
-  the same tree.  Tie to the LALR tables: `C03.phi3b_<d>`.
-* **L3 SELECT skeleton** `C01_partial_select`: for EVERY sequence of clause-rule applications that
-  the grammar actions accept (any order, duplicates, `LIMIT a, b`, `USING`, `FOR UPDATE`), the clauses
-  that `Select.get_string` emits for the resulting record are accepted by
-  `ensure_select_keyword_order` in that order and rebuild exactly the same record; hence printing is
-  stable (`C01_partial_select_stable`).  `C01_partial_select_good`: for ALL records satisfying the
-  decidable invariant `Good` (which every parser-built record satisfies: `C01_select_good`).
-* **L3 set operations** `C01_partial_union : C01_full parseQ printQ id`: every token list the `union` rules accept —
-  operands parenthesised or not on either side, nested to any depth — round-trips, parentheses flags included
-  (the rule `( union )` stores the flag since /repo bce2da8; `C01_regress_union` is the former witness).
-* **L1 atoms**: C04 package (`Props/C04.lean`); here the two atom printers repaired in /repo as regression
-  obligations: `C01_regress_parameter`, `C01_regress_variable`.
+* **reduction of the `copy()` half** `C01_full_of_roundtrip_and_copy`: `C01_full` follows from the plain round trip plus
+  "a copy prints like the original"; the latter is `C01_copy_print_stable` (= `C18.C18_copy_print_stable` on the heap
+  model of `copy.deepcopy` with the live `Identifier.__deepcopy__` hook: every print-like observation of the copy equals that
+  of the original, and no later mutation of the copy changes what the original prints).  In the layer instances below trees
+  are values, so `copy = id`.
+* **L1 atoms** are the C04 package.  Here: `C01_partial_literal_sequence` (a string constant ends where the printer ended
+  it whatever follows: any sequence of constants with any separators is lexed back to the same values and boundaries; built on
+  `Codec.roundtrip`, tied by the `literal-sequence` stream) and the regression obligations `C01_regress_parameter`,
+  `C01_regress_variable` on the models of `Parameter.get_string` / `Variable.get_string` (tied by the `atom-printers` stream).
+* **L2 expressions** `C01_partial_expr_<d>` (= `C03.roundtrip_<d>`): for EVERY token list the operator-precedence machine
+  of the dialect accepts (any operators of the exported precedence table, any user parentheses), printing the tree with its
+  stored `parentheses` flags and parsing again gives the same tree.  Tie to the LALR tables: `C03.phi3b_<d>`.
+* **L3 SELECT skeleton** `C01_partial_select`: for EVERY sequence of clause-rule applications that the grammar actions accept
+  (any order, duplicates, `LIMIT a, b`, `USING`, `FOR UPDATE`), the clauses `Select.get_string` emits for the resulting record
+  pass `ensure_select_keyword_order` in that order and rebuild exactly the same record (`C01_partial_select_stable`,
+  `C01_partial_select_good`, `C01_select_good`).  The "text" of this layer is the head + list of clause applications; no
+  strings are involved.  Tie: `select-skeleton` stream (three dialects).
+* **L3 set operations** `C01_partial_union : C01_full parseQ printQ id`: every token list the `union` rules of the MindsDB
+  grammar accept — operands parenthesised or not on either side, nested to any depth — round-trips, parentheses flags
+  included; `C01_partial_union_wf`, `C01_union_wf`; `C01_regress_union` (the grouping that was lost before /repo bce2da8).
+  Tie: `set-operation-chains` stream.
+* **L2 ∘ L3** `C01_partial_compose` (any payload parser / printer pair; payload round trip G2 as hypothesis),
+  `C01_partial_select_expr_<d>` (G2 discharged for operator expressions), and the token level `C01_partial_tokens`,
+  `C01_partial_tokens_compose`, `C01_review_tokens_select_expr` (G2 and non-emptiness discharged for operator expressions).
+  **Limits of the token level**: tokens are TAGGED (`Tk.kw` / `Tk.comma` / `Tk.pay p`), so a payload token can by typing never be a
+  clause keyword or a top-level comma; identifiers that collide with keywords, commas inside a payload (`f(a, b)`,
+  `FROM a, b`) and keywords inside sub-selects are not expressible — that the real lexer + LALR parser tag the printed text this
+  way is exactly the unproved glue G1.  `printTks` / `splitTks` / `parseSelTks` / `parseSelT` are Lean-only glue with no driver;
+  their real counterpart is watched by the round-trip oracle only.
 
-* **L2 ∘ L3** `C01_partial_compose` (any payload parser / printer pair, payload round trip as hypothesis G2) and
-  `C01_partial_select_expr_<d>` (G2 discharged for operator expressions by `C03.roundtrip_<d>`): a whole SELECT
-  whose clause payloads are expression token lists round-trips.
-
-* **token level** `C01_partial_tokens` / `C01_partial_tokens_compose`: the printed token sequence (clause keywords,
-  commas, payload tokens) is cut back into the clause list, and composed with L2 ∘ L3.
-
-Glue between the layers that is NOT proved (named here, exercised by the round-trip oracle of
-`tools/props/c01.py` on the real code):
- (G1) payload texts (expressions, table references, ordering terms) printed inside a clause are
-      delimited from the clause keywords by the LALR parser exactly as the skeleton assumes
+Glue that is NOT proved (exercised by the round-trip oracle on the real code):
+ (G1) the LALR parser delimits clause payloads from clause keywords the way the skeleton / token level assume
       (clause keywords are reserved words: C04 Φ4; LALR driver: C05);
- (G2) every payload round-trips (L1 + L2 + function calls, CASE, CAST, sub-selects … by structural
-      extension — not modelled);
- (G3) statement kinds other than SELECT / set operations (DML, DDL, SHOW/SET/USE, MindsDB commands):
-      no model; round-trip oracle only.
+ (G2) payloads beyond L1 / L2 round-trip (function calls, CASE, CAST, sub-selects, joins … not modelled);
+ (G3) statement kinds other than SELECT / set operations (DML, DDL, SHOW/SET/USE, MindsDB commands): no model.
 -/
 namespace MindsVerif.Props.C01
 open MindsVerif MindsVerif.SelectSkel
@@ -60,6 +65,33 @@ def C01_full {Text Tree : Type} (parse : Text → Option Tree) (print : Tree →
     parse (print t) = some t ∧
     (∀ t', parse (print t) = some t' → print t' = print t) ∧
     parse (print (copy t)) = some t ∧ print (copy t) = print t
+
+/-- **the `copy()` half of the quantifier**: `C01_full` is the round trip plus "a copy prints like the original" -/
+theorem C01_full_of_roundtrip_and_copy {Text Tree : Type} (parse : Text → Option Tree) (print : Tree → Text)
+    (copy : Tree → Tree) (hrt : ∀ txt t, parse txt = some t → parse (print t) = some t)
+    (hcp : ∀ txt t, parse txt = some t → print (copy t) = print t) : C01_full parse print copy := by
+  intro txt t h
+  have k := hrt txt t h
+  have c := hcp txt t h
+  refine ⟨k, ?_, ?_, c⟩
+  · intro t' h'
+    rw [k] at h'
+    cases h'
+    rfl
+  · rw [c]; exact k
+
+/-- "a copy prints like the original", on the heap model of `copy.deepcopy` with the live `Identifier.__deepcopy__` hook
+(C18): for every well-formed heap and value, every print-like (`Structural`: depends on a finite unfolding only, as
+`to_string` / `to_tree` do) observation `F` of the copy equals that of the original — the hypothesis `hcp` above —,
+and no mutation of the copy changes what the original prints. -/
+theorem C01_copy_print_stable (h0 : Heap.Heap) (v : Heap.Val) (hwf : Heap.wfB h0 = true) (hv : v.okB h0.length = true)
+    (hparen : Heap.parenAtomicB h0 = true) (hshape : Heap.identShapeB h0 = true)
+    {β : Type} (F : Heap.Heap → Heap.Val → β) (hF : Heap.Structural F)
+    (fuel : Nat) (h' : Heap.Heap) (v' : Heap.Val)
+    (he : Heap.deepcopy Gen.CopyRows.identHook fuel h0 v = some (h', v')) :
+    F h' v' = F h0 v ∧ (∀ b f, Heap.Reach h' v' b → F (Heap.mutate h' b f) v = F h0 v) :=
+  let r := C18.C18_copy_print_stable h0 v hwf hv hparen hshape F hF fuel h' v' he
+  ⟨r.1, r.2.2⟩
 
 /-! ## L3: SELECT skeleton -/
 
@@ -223,7 +255,9 @@ example : LitSeq.readSeq [[',', ' '], []] ['\'', 'd', '\\', '\'', ',', ' ', '\''
 (`Lex.parameterToString`, `Lex.variableToString` transcribe the repaired `get_string`s; the former defects —
 `SELECT ?` printed `:?`, ``@`a b` `` printed `@a b` — are fixed known findings KF-C01-1 / KF-C01-6) -/
 
-/-- `SELECT ?`: the placeholder prints as the PARAMETER lexeme -/
+/-- `SELECT ?`: the placeholder prints as the PARAMETER lexeme.  `Lex.parameterToString` is compared with the real
+`Parameter(v).to_string()` on every run (`atom-printers` stream: `?`, named placeholders), so a change of
+`Parameter.get_string` diverges there; the pins below tie the lexeme. -/
 theorem C01_regress_parameter : Lex.parameterToString ['?'] = ['?'] := by decide
 
 example : Gen.Lex_sqlite.PARAMETER = "\\?" := by decide
@@ -258,10 +292,11 @@ example : (parseSel cfgNat none false [1] [.from_ 2, .limit2 7 8]).toOption.map 
 /-! ## [review] additions
 
 [review] Reading guide (what the statements above do and do not say).
-* The header mentions `C01_witness_*` "below": there are none left in this file (the former witnesses became the
-  `C01_regress_*` obligations); no theorem here refutes or proves `C01_full` for the real `parse_sql` / `to_string`.
-* In every instance of `C01_full` proved here `copy = id`, so the two `copy` conjuncts repeat the first one: nothing
-  in C01 is proved about `ASTNode.copy()` (that half of the quantifier rests on C18 `C18_copy_iso` + the oracle).
+* (addressed) the header no longer mentions `C01_witness_*`; no theorem here refutes or proves `C01_full` for the real
+  `parse_sql` / `to_string`.
+* In every layer instance of `C01_full` proved here `copy = id` (trees are values), so the two `copy` conjuncts repeat the
+  first one; (addressed) the `copy()` half is now stated through `C01_full_of_roundtrip_and_copy` + `C01_copy_print_stable`
+  (C18's heap model), and watched on the real code by the oracle (`copy-differs` / `copy-crash`).
 * `C01_partial_select`: the "text" is the abstract head + list of clause-rule applications and "print" is the
   projection `printSkel`; the content is that the canonical clause order `Sel.clauses` passes the guard and rebuilds
   the record (no strings, keywords or whitespace are involved).
@@ -269,9 +304,9 @@ example : (parseSel cfgNat none false [1] [.from_ 2, .limit2 7 8]).toOption.map 
   construction never be a clause keyword or a top-level comma: keyword-colliding identifiers, commas inside a
   payload (`f(a, b)`, `FROM a, b`) and keywords inside sub-selects are outside what these two theorems speak about
   (this is the unproved glue G1).
-* `C01_regress_parameter` unfolds the definition of `Lex.parameterToString` (`if v = ['?'] then ['?'] …`), which no
-  correspondence stream evaluates (Driver/Lex.lean calls `variableToString` / `lexVariable` only): it would stay
-  true if `Parameter.get_string` changed; only the round-trip oracle on `SELECT ?` watches the real code. -/
+* (addressed) `C01_regress_parameter` unfolds `Lex.parameterToString`; that function and `Lex.variableToString` are now
+  evaluated by `Driver/LitSeq.lean` (`P` / `V` lines) and compared with `Parameter.to_string` / `Variable.to_string` in the
+  `atom-printers` correspondence of `tools/props/c01.py`. -/
 
 -- [review] non-vacuity of `C01_partial_select_expr_mindsdb` on a non-trivial instance:
 -- `SELECT DISTINCT x0, -x8 FROM x9 WHERE x1 = x2 AND (x3 OR x4) ORDER BY x1 LIMIT x7`
